@@ -717,7 +717,38 @@ def scenario_one_shot(r):
     return " ".join((accs + "S 3 a 3 S 5 a 5 %s O 5 1 4001 M " % " ".join(script5) + " ".join(main)).split())
 
 
-SCENARIOS = [scenario_owner_sweep] * 6 + [scenario_slot_owns_signal] * 5 + [scenario_one_shot] * 5 + [scenario_last_handle] * 3 + [scenario_blocked_transfers] * 3 + [scenario_deep_recursion]
+def scenario_scoped_empty_slot(r):
+    """a scoped_connection (or a plain connection) whose slot was connected while empty - or invalidated before
+    connect() - gives up ownership in every possible way: the entry leaves the list all the same"""
+    rk = r.choice("iiv")
+    main = ["gnew 0 %s -1 %d" % (rk, r.randint(0, 1))]
+    if r.random() < 0.5:
+        main += ["sempty 1 %s" % rk]
+    else:
+        main += ["tnew 0", "snew 1 %s 2 %s 1 0" % (rk, r.choice("mnkb")), "tdel 0"]
+    main += ["snew 2 %s 3 p 0" % rk, "gconn 0 2 2 0 0", "gconn 0 1 1 %d %d" % (r.randint(0, 1), r.randint(0, 1)), "gq 0", "knew 1 1"]
+    how = r.choice(["kdel", "kmasg", "kmasg-empty", "kasg", "kdisc", "kmove-kdel", "kswap"])
+    if how == "kdel":
+        main += ["kdel 1"]
+    elif how == "kmasg":
+        main += ["knew 2 2", "kmasg 1 2", "kq 1", "kq 2", "gq 0", "kdel 2"]
+    elif how == "kmasg-empty":
+        main += ["kempty 2", "kmasg 1 2", "kq 1", "gq 0", "kdel 2"]
+    elif how == "kasg":
+        main += ["kasg%s 1 2" % r.choice(["", "m"]), "kq 1", "gq 0"]
+    elif how == "kdisc":
+        main += ["kdisc 1"]
+    elif how == "kmove-kdel":
+        main += ["kmove 3 1", "gq 0", "kdel 3"]
+    else:
+        main += ["kempty 2", "kswap 1 2", "gq 0", "kdel 2"]
+    main += ["gq 0", "cq 1", "cq 2", "gemit 0 3 1"]
+    main += ["kdel 1"] if how != "kdel" else []
+    main += ["gq 0", "gdel 0", "cdel 1", "cdel 2", "sdel 1", "sdel 2", "probe"]
+    return " ".join(("S 2 a 2 S 3 a 3 M " + " ".join(main)).split())
+
+
+SCENARIOS = [scenario_owner_sweep] * 6 + [scenario_scoped_empty_slot] * 3 + [scenario_slot_owns_signal] * 5 + [scenario_one_shot] * 5 + [scenario_last_handle] * 3 + [scenario_blocked_transfers] * 3 + [scenario_deep_recursion]
 
 
 def scenarios(seed, count):
